@@ -3,7 +3,7 @@
 The "model" side of this check is NOT the model of html5ever: `model_line` rewrites engine `tok` to
 `tokspec`, so the Lean driver runs the independent transcription of the standard
 (lean/H5V/Spec/HtmlTokenizer.lean) on the same case the harness feeds to the real tokenizer."""
-import os
+import itertools
 import re
 import subprocess
 from props import tokcommon as tc
@@ -39,7 +39,9 @@ ASSUMPTIONS = [
 RULE = ("every html5ever start state × 41 character classes (+EOF) × 6 suffixes, the three last-start-tag relations for "
         "raw end-tag states, both CDATA answers, look-ahead keyword families (state × ordered pairs over a reduced "
         "alphabet in thorough); boundary inputs × {cdata=0, cdata=1, RAW_POL} × bom; character-reference cases "
-        "(named × followers × contexts, numerics, malformed) ; seeded tag soup under cdata/RAW_POL/SCRIPT_POL policies. "
+        "(named × followers × contexts, numerics, malformed); bounded-exhaustive token sequences (GRAMMARS: comments, "
+        "markup declarations, script-data escapes, RCDATA/RAWTEXT end tags, DOCTYPEs, attributes, character references, "
+        "CDATA sections); seeded tag soup under cdata/RAW_POL/SCRIPT_POL policies. "
         "Comparison: implementation tokens with parse errors, pause markers and line numbers removed and character "
         "tokens re-merged == tokens of the WHATWG specification. non-trivial = at least one token besides EOF; "
         "distinct = distinct (case, output)")
@@ -75,6 +77,26 @@ BOUNDARY_INPUTS = [
 ]
 
 
+# (prefix, alphabet of tokens, max sequence length in quick, case keywords)
+GRAMMARS = [
+    ("<!--", ["<", "!", "-", ">", "x", "\0"], 6, {}),
+    ("<!", ["-", "[CDATA[", "]", ">", "x", "DOCTYPE", "doctype "], 4, {"pol": "cdata=1"}),
+    ("", ["<", "!", "-", ">", "/", "script", "SCRIPT", " ", "x"], 5, {"state": "RawData(ScriptData)", "last": tc.hx("script")}),
+    ("<!--", ["<", "-", ">", "/", "script", " ", "x"], 5, {"state": "RawData(ScriptData)", "last": tc.hx("script")}),
+    ("", ["<", "/", "title", "TITLE", "t", " ", ">", "x", "&amp;"], 5, {"state": "RawData(Rcdata)", "last": tc.hx("title")}),
+    ("", ["<", "/", "style", "styl", "\t", ">", "/>", "x"], 5, {"state": "RawData(Rawtext)", "last": tc.hx("style")}),
+    ("<!DOCTYPE", [" ", "PUBLIC", "system", "'", '"', ">", "x", "\0"], 5, {}),
+    ("<!DOCTYPE a PUBLIC", [" ", "'", '"', ">", "x"], 6, {}),
+    ("<a", [" ", "b", "=", "'", '"', ">", "/", "&amp", "B"], 5, {}),
+    ("</a", [" ", "b", "=", "'", ">", "/"], 5, {}),
+    ("<", ["a", "/", "!", "?", ">", " ", "1", "<"], 4, {}),
+    ("", ["&", "#", "x", "1", "g", ";", "amp", "not", "in", "="], 4, {}),
+    ("<a b='", ["&", "#", "X", "9", "f", ";", "amp", "not", "in", "=", "'>"], 4, {}),
+    ("<a b=", ["&", "#", "x", "1", ";", "lt", "=", " ", ">"], 4, {}),
+    ("<svg><![CDATA[", ["]", ">", "x", "\0", "<"], 5, {"pol": "cdata=1"}),
+]
+
+
 def gen_cases(tier, rng):
     global _IN_RUN
     _IN_RUN = True
@@ -107,6 +129,14 @@ def gen_cases(tier, rng):
     for i, (line, tag) in enumerate(sub):
         if tag == "edge" or i % stride == 0:
             cases.append((line, "charref"))
+    # bounded-exhaustive token sequences around the constructs with long reconsume chains / look-aheads
+    for prefix, alphabet, n, kw in GRAMMARS:
+        k = 1 if tier == "thorough" and len(alphabet) ** (n + 1) <= 300000 else 0
+        for seq in itertools.product(alphabet, repeat=n + k):
+            cases.append((tc.case([prefix + "".join(seq)], **kw), "grammar"))
+        for m in range(n + k):
+            for seq in itertools.product(alphabet, repeat=m):
+                cases.append((tc.case([prefix + "".join(seq)], **kw), "grammar"))
     for line in tc.random_soup(rng, 3000 if tier == "quick" else 150000):
         cases.append((line, "soup"))
     # soup continued from a random start state
